@@ -229,20 +229,20 @@ Proof.
   intros H. unfold svdtf_flip. rewrite absF_R, H. cbn [add one ltb NumR]. apply Rltb_false.
   rewrite Rabs_right by lra. unfold det_tol, frac. cbn [div ofZ NumR]. lra.
 Qed.
-Lemma svdtf_rot_cases U Vh : orth U -> orth Vh ->
-  (mdet3 (mmul3 U Vh) = 1 /\ svdtf_rot U Vh = mmul3 U Vh) \/
-  (mdet3 (mmul3 U Vh) = -1 /\ svdtf_rot U Vh = mneg3 (mmul3 U Vh)).
+(* --- history: the source before fix 23d9fa1 (whole matrix negated) *)
+Lemma svdtf_rot_old_cases U Vh : orth U -> orth Vh ->
+  (mdet3 (mmul3 U Vh) = 1 /\ svdtf_rot_old U Vh = mmul3 U Vh) \/
+  (mdet3 (mmul3 U Vh) = -1 /\ svdtf_rot_old U Vh = mneg3 (mmul3 U Vh)).
 Proof.
   intros HU HV. destruct (orth_det_cases _ (orth_mmul3 _ _ HU HV)) as [Hd | Hd]; [left | right];
-    (split; [exact Hd|]); unfold svdtf_rot.
+    (split; [exact Hd|]); unfold svdtf_rot_old.
   - now rewrite (svdtf_flip_p1 _ _ Hd).
   - now rewrite (svdtf_flip_m1 _ _ Hd).
 Qed.
-(* the rotation svdtf hands to mat2SE3 is a proper rotation for every oracle answer *)
-Lemma svdtf_proper U Vh : orth U -> orth Vh -> rot (svdtf_rot U Vh).
+Lemma svdtf_old_proper U Vh : orth U -> orth Vh -> rot (svdtf_rot_old U Vh).
 Proof.
   intros HU HV. pose proof (orth_mmul3 _ _ HU HV) as HO.
-  destruct (svdtf_rot_cases U Vh HU HV) as [[Hd ->] | [Hd ->]].
+  destruct (svdtf_rot_old_cases U Vh HU HV) as [[Hd ->] | [Hd ->]].
   - split; assumption.
   - split; [now apply orth_mneg3 | rewrite mdet3_mneg3; lra].
 Qed.
@@ -251,6 +251,18 @@ Proof.
   intros H. unfold kabsch_rot. rewrite H. cbn [one NumR].
   replace (diag3 (1, 1, 1)) with (mid3 (F:=R)) by al_ring. now rewrite mmul3_id_r.
 Qed.
+
+(* --- current source: D = (1, 1, 1 - 2 mask), R = U diag(D) Vh is the textbook Kabsch rotation for
+   every oracle answer, hence a proper rotation on both branches *)
+Lemma svdtf_rot_kabsch U Vh : orth U -> orth Vh -> svdtf_rot U Vh = kabsch_rot U Vh.
+Proof.
+  intros HU HV. unfold svdtf_rot, kabsch_rot, svdtf_D.
+  destruct (orth_det_cases _ (orth_mmul3 _ _ HU HV)) as [Hd | Hd]; rewrite Hd.
+  - rewrite (svdtf_flip_p1 _ _ Hd). clear HU HV Hd. al_ring.
+  - rewrite (svdtf_flip_m1 _ _ Hd). clear HU HV Hd. al_ring.
+Qed.
+Lemma svdtf_proper U Vh : orth U -> orth Vh -> rot (svdtf_rot U Vh).
+Proof. intros HU HV. rewrite svdtf_rot_kabsch by assumption. now apply kabsch_rot_rot. Qed.
 
 (* ---------------------------------------------------------------- residual decomposition *)
 Definition sumsq (l : cloudR) : R := sumF (map sqnorm l).
@@ -367,24 +379,28 @@ Proof.
 Qed.
 
 (* ---------------------------------------------------------------- svdtf on the faithful model *)
-(* without the reflection branch svdtf is Kabsch *)
-Lemma svdtf_mat_p1 (src tgt : cloudR) U Vh : orth U -> orth Vh -> mdet3 (mmul3 U Vh) = 1 ->
+(* the repaired svdtf is Kabsch on every branch *)
+Lemma svdtf_mat_kabsch (src tgt : cloudR) U Vh : orth U -> orth Vh ->
   svdtf_mat src tgt U Vh = kabsch_mat src tgt U Vh.
-Proof.
-  intros HU HV Hd. unfold svdtf_mat, kabsch_mat, svdtf_rot.
-  now rewrite (svdtf_flip_p1 _ _ Hd), (kabsch_rot_p1 _ _ Hd).
-Qed.
-Theorem svdtf_optimal_partial (src tgt : cloudR) U S Vh :
-  sizes_ok src tgt = true -> svd_ok (svdtf_M src tgt) U S Vh -> mdet3 (mmul3 U Vh) = 1 ->
+Proof. intros HU HV. unfold svdtf_mat, kabsch_mat. now rewrite svdtf_rot_kabsch. Qed.
+Theorem svdtf_optimal (src tgt : cloudR) U S Vh :
+  sizes_ok src tgt = true -> svd_ok (svdtf_M src tgt) U S Vh ->
   forall A t, rot A ->
     resid (rigid_apply (fst (svdtf_mat src tgt U Vh)) (snd (svdtf_mat src tgt U Vh))) src tgt
     <= resid (rigid_apply A t) src tgt.
 Proof.
-  intros Hs Hsvd Hd. pose proof Hsvd as (HU & HV & _ & _).
-  rewrite (svdtf_mat_p1 src tgt U Vh HU HV Hd). apply (kabsch_optimal src tgt U S Vh Hs Hsvd).
+  intros Hs Hsvd. pose proof Hsvd as (HU & HV & _ & _).
+  rewrite (svdtf_mat_kabsch src tgt U Vh HU HV). apply (kabsch_optimal src tgt U S Vh Hs Hsvd).
+Qed.
+(* history: the old code was Kabsch only without the reflection branch *)
+Lemma svdtf_mat_old_p1 (src tgt : cloudR) U Vh : orth U -> orth Vh -> mdet3 (mmul3 U Vh) = 1 ->
+  svdtf_mat_old src tgt U Vh = kabsch_mat src tgt U Vh.
+Proof.
+  intros HU HV Hd. unfold svdtf_mat_old, kabsch_mat, svdtf_rot_old.
+  now rewrite (svdtf_flip_p1 _ _ Hd), (kabsch_rot_p1 _ _ Hd).
 Qed.
 
-(* in the reflection branch svdtf returns - U Vh, whose <R, M> is the MINIMUM over all rotations *)
+(* history: in the reflection branch the old svdtf returned - U Vh, whose <R, M> is the MINIMUM over all rotations *)
 Lemma neg_UVh_trace M U S Vh : svd_ok M U S Vh ->
   dotM (mneg3 (mmul3 U Vh)) M = - (vx S + vy S + vz S).
 Proof.
@@ -392,18 +408,18 @@ Proof.
   rewrite mtrans_mmul3, <- (mmul3_assoc Vh). unfold orth in HV. rewrite HV, mmul3_id_l.
   rewrite (orth_left U HU). unfold wtrace. al_ring.
 Qed.
-Theorem svdtf_reflection_pessimal (src tgt : cloudR) U S Vh :
+Theorem svdtf_old_reflection_pessimal (src tgt : cloudR) U S Vh :
   sizes_ok src tgt = true -> svd_ok (svdtf_M src tgt) U S Vh -> mdet3 (mmul3 U Vh) = -1 ->
   forall A, rot A ->
     resid (rigid_apply A (vsub (centroid tgt) (mvmul A (centroid src)))) src tgt
-    <= resid (rigid_apply (fst (svdtf_mat src tgt U Vh)) (snd (svdtf_mat src tgt U Vh))) src tgt.
+    <= resid (rigid_apply (fst (svdtf_mat_old src tgt U Vh)) (snd (svdtf_mat_old src tgt U Vh))) src tgt.
 Proof.
   intros Hs Hsvd Hd A HA. pose proof Hsvd as (HU & HV & (H1 & H2 & H3) & HM).
-  pose proof (svdtf_proper U Vh HU HV) as HR.
-  unfold svdtf_mat in *. cbn [fst snd]. rewrite !resid_general by exact Hs.
+  pose proof (svdtf_old_proper U Vh HU HV) as HR.
+  unfold svdtf_mat_old in *. cbn [fst snd]. rewrite !resid_general by exact Hs.
   rewrite !eoff_opt, sqnorm_vzero, Rmult_0_r.
   rewrite (sumsqA_orth _ _ (proj1 HR)), (sumsqA_orth _ _ (proj1 HA)).
-  unfold svdtf_rot. rewrite (svdtf_flip_m1 _ _ Hd), (neg_UVh_trace _ U S Vh Hsvd).
+  unfold svdtf_rot_old. rewrite (svdtf_flip_m1 _ _ Hd), (neg_UVh_trace _ U S Vh Hsvd).
   rewrite HM at 1. rewrite dotM_svd.
   assert (HQ : orth (mmul3 (mmul3 Vh (mtrans A)) U)).
   { apply orth_mmul3; [apply orth_mmul3; [exact HV | apply orth_mtrans, HA] | exact HU]. }
@@ -457,19 +473,19 @@ Proof.
   pose proof (resid_nonneg (rigid_apply (fst (kabsch_mat src tgt U Vh)) (snd (kabsch_mat src tgt U Vh))) src tgt).
   lra.
 Qed.
-Theorem svdtf_exact_recovery_partial (src tgt : cloudR) U S Vh A0 t0 :
+Theorem svdtf_exact_recovery (src tgt : cloudR) U S Vh A0 t0 :
   tgt = map (rigid_apply A0 t0) src ->
-  src <> [] -> rot A0 -> svd_ok (svdtf_M src tgt) U S Vh -> mdet3 (mmul3 U Vh) = 1 ->
+  src <> [] -> rot A0 -> svd_ok (svdtf_M src tgt) U S Vh ->
   Forall2 (fun p q => rigid_apply (fst (svdtf_mat src tgt U Vh)) (snd (svdtf_mat src tgt U Vh)) p = q) src tgt.
 Proof.
-  intros Htgt Hne HA Hsvd Hd. pose proof Hsvd as (HU & HV & _ & _).
-  rewrite (svdtf_mat_p1 src tgt U Vh HU HV Hd). now apply (kabsch_exact_recovery src tgt U S Vh A0 t0).
+  intros Htgt Hne HA Hsvd. pose proof Hsvd as (HU & HV & _ & _).
+  rewrite (svdtf_mat_kabsch src tgt U Vh HU HV). now apply (kabsch_exact_recovery src tgt U S Vh A0 t0).
 Qed.
 
 (* ---------------------------------------------------------------- refutation witness *)
 (* three coplanar points, target = source (the true transform is the identity); the SVD
    U = I, S = (6,2,0), Vh = diag(1,1,-1) satisfies the contract (the sign of the third singular
-   vectors is arbitrary because s3 = 0); svdtf returns the half turn about z: residual 32 > 0 *)
+   vectors is arbitrary because s3 = 0); the OLD svdtf returned the half turn about z: residual 32 > 0 *)
 Definition wit_src : cloudR := [(2, 0, 0); (-1, 1, 0); (-1, -1, 0)].
 Definition wit_U : mat3R := mid3.
 Definition wit_S : vec3R := (6, 2, 0).
@@ -483,22 +499,22 @@ Proof.
   cbv [map crosscov length centroid vsum3 fold_right ofN Z.of_nat Pos.of_succ_nat Pos.succ vdivs].
   al_unfold. split_pairs; field.
 Qed.
-Lemma wit_rot : svdtf_rot wit_U wit_Vh = ((-1, 0, 0), (0, -1, 0), (0, 0, 1)).
+Lemma wit_rot : svdtf_rot_old wit_U wit_Vh = ((-1, 0, 0), (0, -1, 0), (0, 0, 1)).
 Proof.
   assert (Hd : mdet3 (mmul3 wit_U wit_Vh) = -1) by (unfold wit_U, wit_Vh; al_ring).
-  unfold svdtf_rot. rewrite (svdtf_flip_m1 _ _ Hd). unfold wit_U, wit_Vh. al_ring.
+  unfold svdtf_rot_old. rewrite (svdtf_flip_m1 _ _ Hd). unfold wit_U, wit_Vh. al_ring.
 Qed.
-Theorem svdtf_refuted :
+Theorem svdtf_old_refuted :
   exists (src tgt : cloudR) U S Vh A t,
     sizes_ok src tgt = true /\ svd_ok (svdtf_M src tgt) U S Vh /\ rot A /\
     resid (rigid_apply A t) src tgt = 0 /\
-    resid (rigid_apply (fst (svdtf_mat src tgt U Vh)) (snd (svdtf_mat src tgt U Vh))) src tgt = 32.
+    resid (rigid_apply (fst (svdtf_mat_old src tgt U Vh)) (snd (svdtf_mat_old src tgt U Vh))) src tgt = 32.
 Proof.
   exists wit_src, wit_src, wit_U, wit_S, wit_Vh, mid3, vzero.
   destruct wit_contract as [H1 H2]. split; [exact H1|]. split; [exact H2|]. split; [apply rot_mid3|].
   split.
   - unfold wit_src. cbn [resid]. al_unfold. ring.
-  - unfold svdtf_mat. cbn [fst snd]. rewrite wit_rot. unfold wit_src.
+  - unfold svdtf_mat_old. cbn [fst snd]. rewrite wit_rot. unfold wit_src.
     cbv [resid length centroid vsum3 fold_right ofN Z.of_nat Pos.of_succ_nat Pos.succ vdivs].
     al_unfold. field.
 Qed.
@@ -758,27 +774,54 @@ Proof.
   eexists. split; [reflexivity|]. cbn [snd fst]. split; [exact Hq|]. split; [rewrite Hm; exact HR|].
   intros p. rewrite SE3_act_rigid, Hm. reflexivity.
 Qed.
+(* history: the same for the source before fix 23d9fa1 *)
+Theorem svdtf_old_returns (src tgt : cloudR) :
+  sizes_ok src tgt = true -> svd_contract (svdtf_M src tgt) ->
+  exists T, svdtf_old svd src tgt = Some T /\ unitq (snd T) /\
+    let '(U, _, Vh) := svd (svdtf_M src tgt) in
+    forall p, SE3_act T p = rigid_apply (fst (svdtf_mat_old src tgt U Vh)) (snd (svdtf_mat_old src tgt U Vh)) p.
+Proof.
+  intros Hs Hc. unfold svdtf_old, svd_contract in *. rewrite Hs.
+  destruct (svd (svdtf_M src tgt)) as [[U S] Vh]. destruct Hc as (HU & HV & _ & _).
+  pose proof (svdtf_old_proper U Vh HU HV) as HR.
+  destruct (mat2SO3_rot _ HR) as (q & Eq & Hq & Hm).
+  unfold mat2SE3, svdtf_mat_old. cbn [fst snd]. rewrite Eq.
+  eexists. split; [reflexivity|]. cbn [snd fst]. split; [exact Hq|].
+  intros p. rewrite SE3_act_rigid, Hm. reflexivity.
+Qed.
 End WithOracle.
 
-(* refutation at the level of the function as called: an oracle whose answer on this input meets
-   the contract, and the returned SE3 element moves the (identical) clouds apart *)
-Theorem svdtf_call_refuted :
-  exists (svd : mat3R -> mat3R * vec3R * mat3R) (src tgt : cloudR) T,
+(* history: refutation of the OLD function as called: an oracle whose answer on this input meets
+   the contract, and the returned SE3 element moves the (identical) clouds apart; the repaired
+   function maps the same clouds onto each other exactly *)
+Theorem svdtf_old_call_refuted :
+  exists (svd : mat3R -> mat3R * vec3R * mat3R) (src tgt : cloudR) T T',
     sizes_ok src tgt = true /\ svd_contract svd (svdtf_M src tgt) /\
-    svdtf svd src tgt = Some T /\ resid (SE3_act SE3_id) src tgt = 0 /\ resid (SE3_act T) src tgt = 32.
+    svdtf_old svd src tgt = Some T /\ resid (SE3_act SE3_id) src tgt = 0 /\ resid (SE3_act T) src tgt = 32 /\
+    svdtf svd src tgt = Some T' /\ resid (SE3_act T') src tgt = 0.
 Proof.
   set (svd := fun _ : mat3R => (wit_U, wit_S, wit_Vh)).
   destruct wit_contract as [H1 H2].
   assert (Hc : svd_contract svd (svdtf_M wit_src wit_src)) by exact H2.
-  destruct (svdtf_returns svd wit_src wit_src H1 Hc) as (T & ET & _ & HT).
-  exists svd, wit_src, wit_src, T. split; [exact H1|]. split; [exact Hc|]. split; [exact ET|].
-  unfold svd in HT. cbv beta iota in HT. destruct HT as [_ HT]. split.
-  - rewrite (resid_ext _ (fun p => p)) by (intros p; apply SE3_act_id).
-    unfold wit_src. cbn [resid]. al_unfold. ring.
+  destruct (svdtf_old_returns svd wit_src wit_src H1 Hc) as (T & ET & _ & HT).
+  destruct (svdtf_returns svd wit_src wit_src H1 Hc) as (T' & ET' & _ & HT').
+  exists svd, wit_src, wit_src, T, T'. split; [exact H1|]. split; [exact Hc|]. split; [exact ET|].
+  unfold svd in HT, HT'. cbv beta iota in HT, HT'. destruct HT' as [_ HT'].
+  assert (H0 : resid (SE3_act SE3_id) wit_src wit_src = 0).
+  { rewrite (resid_ext _ (fun p => p)) by (intros p; apply SE3_act_id).
+    unfold wit_src. cbn [resid]. al_unfold. ring. }
+  split; [exact H0|]. split; [|split; [exact ET'|]].
   - rewrite (resid_ext _ _ HT).
-    unfold svdtf_mat. cbn [fst snd]. rewrite wit_rot. unfold wit_src.
+    unfold svdtf_mat_old. cbn [fst snd]. rewrite wit_rot. unfold wit_src.
     cbv [resid length centroid vsum3 fold_right ofN Z.of_nat Pos.of_succ_nat Pos.succ vdivs].
     al_unfold. field.
+  - rewrite (resid_ext _ _ HT').
+    pose proof (svdtf_optimal wit_src wit_src wit_U wit_S wit_Vh H1 H2 mid3 vzero rot_mid3) as Hle.
+    rewrite (resid_ext (rigid_apply mid3 vzero) (fun p => p)) in Hle by (intros p; al_ring).
+    rewrite (resid_ext (fun p => p) (SE3_act SE3_id)) in Hle by (intros p; symmetry; apply SE3_act_id).
+    rewrite H0 in Hle.
+    pose proof (resid_nonneg (rigid_apply (fst (svdtf_mat wit_src wit_src wit_U wit_Vh)) (snd (svdtf_mat wit_src wit_src wit_U wit_Vh))) wit_src wit_src).
+    lra.
 Qed.
 
 (* ---------------------------------------------------------------- mat2Sim3 on s R, svdstf as called *)
@@ -843,7 +886,7 @@ Qed.
 End WithOracle2.
 
 (* ---------------------------------------------------------------- one ICP pass does not increase
-   the sum of squared closest-point distances (partial: no reflection branch in this pass) *)
+   the sum of squared closest-point distances *)
 (* contract of knn, k = 1: the index is in range and no target point is closer *)
 Definition knn_ok (P tgt : cloudR) (idx : list nat) : Prop :=
   Forall2 (fun p i => (i < length tgt)%nat /\
@@ -873,21 +916,19 @@ Proof. unfold knn_ok. induction 1; constructor; tauto. Qed.
 Section WithOracle3.
 Variable svd : mat3R -> mat3R * vec3R * mat3R.
 Variable knn : cloudR -> cloudR -> list (R * nat).
-Theorem icp_pass_monotone_partial (temporal target temporal' : cloudR) (err : R) :
+Theorem icp_pass_monotone (temporal target temporal' : cloudR) (err : R) :
   temporal <> [] ->
   knn_ok temporal target (map snd (knn temporal target)) ->
   knn_ok temporal' target (map snd (knn temporal' target)) ->
-  (let M := svdtf_M temporal (gather3 target (map snd (knn temporal target))) in
-   svd_contract svd M /\ let '(U, _, Vh) := svd M in mdet3 (mmul3 U Vh) = 1) ->
+  svd_contract svd (svdtf_M temporal (gather3 target (map snd (knn temporal target)))) ->
   icp_body svd knn temporal target = Some (err, temporal') ->
   cpd temporal' target (map snd (knn temporal' target)) <= cpd temporal target (map snd (knn temporal target)).
 Proof.
-  intros Hne Hk Hk' Hsvd Hbody. unfold icp_body in Hbody.
+  intros Hne Hk Hk' Hc Hbody. unfold icp_body in Hbody.
   set (idx := map snd (knn temporal target)) in *. set (G := gather3 target idx) in *.
   assert (HLG : length G = length temporal) by (unfold G, gather3; rewrite map_length; apply (knn_ok_length _ _ _ Hk)).
   assert (Hs : sizes_ok temporal G = true).
   { unfold sizes_ok. rewrite HLG, Nat.eqb_refl. destruct temporal; [contradiction | reflexivity]. }
-  destruct Hsvd as [Hc Hd].
   destruct (svdtf_returns svd temporal G Hs Hc) as (T & ET & _ & HT). rewrite ET in Hbody.
   injection Hbody as _ Ht'. subst temporal'.
   unfold svd_contract in Hc. destruct (svd (svdtf_M temporal G)) as [[U S] Vh]. destruct HT as [_ HT].
@@ -896,7 +937,7 @@ Proof.
   unfold se3_cloud in *. rewrite map_length in H1. specialize (H1 (knn_ok_length _ _ _ Hk)).
   eapply Rle_trans; [exact H1|]. unfold cpd. fold G. rewrite resid_map, (resid_ext _ _ HT).
   (* svdtf's transform is at least as good as the identity on the matched pairs *)
-  pose proof (svdtf_optimal_partial temporal G U S Vh Hs Hc Hd mid3 vzero rot_mid3) as H2.
+  pose proof (svdtf_optimal temporal G U S Vh Hs Hc mid3 vzero rot_mid3) as H2.
   rewrite (resid_ext (rigid_apply mid3 vzero) (fun p => p)) in H2 by (intros p; al_ring). exact H2.
 Qed.
 End WithOracle3.
